@@ -151,6 +151,20 @@ def cases(rng, tier):
         w = "\n".join([g.render_struct(mid), g.render_struct(last), "@group(0) @binding(0) var<storage, read_write> table: Table;",
                        "@group(0) @binding(1) var<storage, read_write> tail: Tail;", "@compute @workgroup_size(1) fn main() {}"]) + "\n"
         out.append({"wgsl": w, "family": "large_arrays", "opts": {"encase": True, "mv": "Glam"}, "tys": [mid, last], "rts_lengths": [0]})
+    # small structs of scalars / vec2 whose size is NOT a multiple of 16, bound directly as var<uniform> and nested in a second
+    # struct (the member behind the nested one sits right after it): no padding the WGSL rules do not ask for
+    for i in range({"quick": 6, "search": 10, "thorough": 20}[tier]):
+        g = structgen.Gen(rng)
+        pool = [("a", Ty("scalar", s="f32")), ("b", Ty("scalar", s="f32")), ("c", Ty("scalar", s="u32")), ("d", Ty("vec", n=2, s="f32")), ("e", Ty("scalar", s="i32"))]
+        ms = [pool[0]] + rng.sample(pool[1:], rng.choice([0, 2, 2, 3]))
+        if sum(4 if t.kind == "scalar" else 8 for _, t in ms) % 16 == 0:
+            ms = ms[:-1] or ms
+        params = Ty("struct", name="Params", members=ms, has_rts=False)
+        outer = Ty("struct", name="Outer", members=[("p", params), ("k", Ty("scalar", s="f32")), ("tint", Ty("vec", n=4, s="f32"))], has_rts=False)
+        w = "\n".join([g.render_struct(params), g.render_struct(outer), "@group(0) @binding(0) var<uniform> params: Params;",
+                       "@group(0) @binding(1) var<storage, read_write> outer: Outer;",
+                       "@compute @workgroup_size(1) fn main() { outer.k = params.a; }"]) + "\n"
+        out.append({"wgsl": w, "family": "small_uniform_struct", "opts": {"encase": True, "mv": "Glam"}, "tys": [params, outer], "rts_lengths": [0]})
     # a host-shareable struct that is ALSO an entry point result (a fragment output kept in a debug buffer), nested as an
     # array element / member of another host struct: it is host-visible, so it is emitted and serialisable like any other
     for i in range({"quick": 4, "search": 8, "thorough": 16}[tier]):
